@@ -460,6 +460,7 @@ class C18(Check):
         W = "_response_coefficient_worker"
         P = "parameter_elasticities"
         return [
+            Variant("mc-wrapper-writes-caller-model", "mc.py", "response_coefficients", "        model = copy.deepcopy(model)\n", "", expect="M1|mc.py|response_coefficients", quick=True),
             Variant("reintroduce-unrestored-variables", MOD, W, "    if old_variables is not None:\n        model.update_variables(old_variables)\n", "", expect="M1|mca.py|_response_coefficient_worker|unrestored variables", quick=True),
             Variant("drop-parameter-reset", MOD, P, "        model.update_parameters({par: old})\n", "", expect="M1|mca.py|parameter_elasticities|", quick=True),
             Variant("drop-worker-parameter-reset", MOD, W, "    model.update_parameters({parameter: old})\n", "", expect="M1|mca.py|_response_coefficient_worker|unrestored parameters"),
